@@ -16,10 +16,16 @@ import (
 var verifArches = []string{"amd64", "arm64", "386", "arm7"}
 
 func verifNameInfo(name, pre, meta, rel, epoch, arch string) *nfpm.Info {
+	return verifNameInfoO(name, pre, meta, rel, epoch, arch, "")
+}
+
+func verifNameInfoO(name, pre, meta, rel, epoch, arch, override string) *nfpm.Info {
 	info := &nfpm.Info{Name: name, Arch: arch, Platform: "linux", Version: "1.2.3", Prerelease: pre, VersionMetadata: meta,
 		Release: rel, Epoch: epoch, Description: "d", Maintainer: "m <m@x>", MTime: time.Unix(1700000000, 0).UTC()}
 	info.Umask = 0o022
 	info.RPM.BuildHost = "host"
+	// the format-specific architecture override (verbatim) of every format
+	info.Deb.Arch, info.RPM.Arch, info.APK.Arch, info.ArchLinux.Arch, info.IPK.Arch = override, override, override, override, override
 	return info
 }
 
@@ -44,13 +50,14 @@ func verifFileName(format string) {
 	rel := verifOpt("rel", 1, "1-9")
 	epoch := verifOpt("epoch", 1, "1-9")
 	arch := verifArches[v.NondetChoice("arch", len(verifArches))]
+	override := verifOpt("archoverride", 2, "a-z")
 	p := Packager(format)
 
-	asked := verifNameInfo(name, pre, meta, rel, epoch, arch)
+	asked := verifNameInfoO(name, pre, meta, rel, epoch, arch, override)
 	fname := p.ConventionalFileName(asked)
 	var b1, b2 bytes.Buffer
 	err1 := p.Package(asked, &b1)
-	err2 := p.Package(verifNameInfo(name, pre, meta, rel, epoch, arch), &b2)
+	err2 := p.Package(verifNameInfoO(name, pre, meta, rel, epoch, arch, override), &b2)
 	v.Reach("C15.name.ran")
 	v.Observe("fname", fname)
 	v.Assert(err1 == nil && err2 == nil, format+"-packages")
@@ -183,3 +190,6 @@ func Verif_C15_CLITarget() {
 	v.Assert(err == nil, "cli-succeeds")
 	v.Assert(models.Exists(want), "cli-writes-exactly-the-requested-target")
 }
+
+// Verif_C06_CLI: the command-line clause of C06 (non-nil error, no file left at the target) is the failing branch of the CLI harness.
+func Verif_C06_CLI() { Verif_C15_CLITarget() }
